@@ -141,7 +141,12 @@ type Program struct {
 	AliasImports bool `json:"alias_imports,omitempty"`
 	// LineDirs: //line comments between the directive's arguments announce
 	// decreasing line numbers of another file (as preprocessor output does).
-	LineDirs       bool     `json:"line_dirs,omitempty"`
+	LineDirs bool `json:"line_dirs,omitempty"`
+	// Guest: a second program printed into this program's file (same package,
+	// its identifiers renamed): two directives per file. Host: for a guest, the
+	// name of the program whose file holds it.
+	Guest          *Program `json:"-"`
+	Host           string   `json:"host,omitempty"`
 	inHelper       bool     // printing a signature inside the helper package
 	Features       []string `json:"features,omitempty"`
 	NumFns         int      `json:"num_fns"`
